@@ -58,6 +58,8 @@ type Config struct {
 	Mode           string
 	Params         map[string]int
 	Verbose        bool
+	ShardI, ShardN int
+	SplitDepth     int
 }
 
 type Interp struct {
@@ -101,6 +103,9 @@ type Interp struct {
 	onBlockedSend func(*ChanObj, Value) bool
 	onGo        func(func())
 	axiomLog    *[]*Term
+	forceInit   bool
+	curTok      token.Pos
+	constCache  map[*ssa.Const]Value
 	hashSeq     int
 }
 
@@ -112,7 +117,7 @@ func (in *Interp) newCell(t types.Type, v Value) *Cell {
 func (in *Interp) fail(format string, a ...interface{}) {
 	msg := fmt.Sprintf(format, a...)
 	if len(in.callStack) > 0 {
-		msg += " [in " + in.callStack[len(in.callStack)-1] + " at " + in.curPos + "]"
+		msg += " [in " + in.callStack[len(in.callStack)-1] + " at " + in.posString() + "]"
 	}
 	panic(engineError{msg})
 }
@@ -128,7 +133,15 @@ func (in *Interp) where() string {
 	for i := n - 1; i >= 0 && i >= n-6; i-- {
 		fr = append(fr, shortFn(in.callStack[i]))
 	}
-	return in.curPos + " <- " + strings.Join(fr, " <- ")
+	return in.posString() + " <- " + strings.Join(fr, " <- ")
+}
+
+func (in *Interp) posString() string {
+	if !in.curTok.IsValid() {
+		return "?"
+	}
+	pos := in.prog.Fset.Position(in.curTok)
+	return fmt.Sprintf("%s:%d", shortFile(pos.Filename), pos.Line)
 }
 
 func shortFn(s string) string {
@@ -321,6 +334,9 @@ type floatV struct{ f float64 }
 // ---------------------------------------------------------------- memory
 
 func (in *Interp) load(p PtrV) Value {
+	if p.C != nil && p.C.Watch {
+		in.logAccess(p, false)
+	}
 	v := in.loadRaw(p)
 	if len(p.Path) == 0 && p.C.Tag == "own" {
 		if a, ok := v.(*ArrV); ok { // the owner mutates in place: hand out a copy
@@ -397,6 +413,9 @@ func updatePath(in *Interp, v Value, path []int, nv Value) Value {
 func (in *Interp) store(p PtrV, v Value) {
 	if p.C == nil {
 		in.goPanicf("runtime error: invalid memory address or nil pointer dereference")
+	}
+	if p.C.Watch {
+		in.logAccess(p, true)
 	}
 	// fast path: array element inside a top-level array cell (byte buffers)
 	if len(p.Path) == 1 {
@@ -622,7 +641,15 @@ func (in *Interp) constValue(c *ssa.Const) Value {
 func (in *Interp) get(fr *Frame, v ssa.Value) Value {
 	switch x := v.(type) {
 	case *ssa.Const:
-		return in.constValue(x)
+		if v, ok := in.constCache[x]; ok {
+			return v
+		}
+		v := in.constValue(x)
+		switch v.(type) {
+		case *Term, StrV:
+			in.constCache[x] = v
+		}
+		return v
 	case *ssa.Function:
 		return FuncV{Fn: x}
 	case *ssa.Global:
@@ -688,6 +715,7 @@ func (in *Interp) ensureInit(p *ssa.Package) {
 				}
 			}
 		}()
+		in.forceInit = true
 		in.callFunction(initFn, nil, nil)
 	}()
 	in.inInit--
@@ -735,19 +763,16 @@ func (in *Interp) callFunction(fn *ssa.Function, args []Value, free []Value) (re
 			in.fail("call of external function without model: %s", name)
 		}
 	}
-	if fn.Name() == "init" && fn.Pkg != nil && fn.Signature.Recv() == nil && in.inInit > 0 && len(in.callStack) > 0 {
-		// nested package initialiser: run lazily when one of its globals is touched
-		if in.initDone[fn.Pkg] {
-			return nil
+	forced := in.forceInit
+	in.forceInit = false
+	if fn.Name() == "init" && fn.Pkg != nil && fn.Signature.Recv() == nil && !forced {
+		// nested package initialiser: repo packages and a few simple std packages are run (protected);
+		// others are skipped and initialised lazily if one of their globals is touched
+		path := fn.Pkg.Pkg.Path()
+		if strings.Contains(path, "multi-party-sig") || initOKPkgs[path] {
+			in.ensureInit(fn.Pkg)
 		}
-		in.initDone[fn.Pkg] = true
-		if skipInitPkgs[fn.Pkg.Pkg.Path()] {
-			return nil
-		}
-		if !strings.Contains(fn.Pkg.Pkg.Path(), "multi-party-sig") && !initOKPkgs[fn.Pkg.Pkg.Path()] {
-			in.initDone[fn.Pkg] = false
-			return nil
-		}
+		return nil
 	}
 	in.funcsSeen[name] = true
 	in.depth++
@@ -761,16 +786,16 @@ func (in *Interp) callFunction(fn *ssa.Function, args []Value, free []Value) (re
 			fr.env[p] = args[i]
 		}
 	}
-	savedPos := in.curPos
+	savedPos := in.curTok
 	defer func() {
 		in.depth--
 		in.callStack = in.callStack[:len(in.callStack)-1]
-		in.curPos = savedPos
+		in.curTok = savedPos
 	}()
 	return in.runFrame(fr)
 }
 
-var initOKPkgs = map[string]bool{"io": true, "errors": true, "bytes": true, "sort": true, "strings": true, "encoding/hex": true, "io/fs": true}
+var initOKPkgs = map[string]bool{"io": true, "bytes": true, "sort": true, "strings": true, "encoding/hex": true, "io/fs": true}
 
 // runFrame executes the blocks of fr; handles panics + defers + recover.
 func (in *Interp) runFrame(fr *Frame) (ret Value) {
@@ -859,8 +884,7 @@ func (in *Interp) execFrom(fr *Frame, b *ssa.BasicBlock, prev *ssa.BasicBlock) V
 				panic(pathEnd{fmt.Sprintf("step budget exceeded (%d)", in.cfg.MaxSteps)})
 			}
 			if p := ins.Pos(); p.IsValid() {
-				pos := in.prog.Fset.Position(p)
-				in.curPos = fmt.Sprintf("%s:%d", shortFile(pos.Filename), pos.Line)
+				in.curTok = p
 			}
 			switch x := ins.(type) {
 			case *ssa.If:
@@ -1010,6 +1034,9 @@ func (in *Interp) exec(fr *Frame, ins ssa.Instruction) {
 		m := in.get(fr, x.Map).(MapV)
 		if m.M == nil {
 			in.goPanicf("assignment to entry in nil map")
+		}
+		if m.M.Owner != nil {
+			in.recordAccess(m.M.Owner.C, m.M.Owner.Field, true)
 		}
 		in.mapSet(m.M, in.get(fr, x.Key), in.get(fr, x.Value))
 	case *ssa.Range:
@@ -1269,7 +1296,11 @@ func (in *Interp) unop(fr *Frame, x *ssa.UnOp) Value {
 		if !ok {
 			in.fail("deref of %T", v)
 		}
-		return in.load(p)
+		lv := in.load(p)
+		if p.C != nil && p.C.Watch && len(p.Path) > 0 {
+			in.tagOwner(lv, &accessOwner{p.C, p.Path[0]})
+		}
+		return lv
 	case token.SUB:
 		if f, ok := v.(floatV); ok {
 			return floatV{-f.f}
@@ -1436,6 +1467,12 @@ func (in *Interp) lookup(fr *Frame, x *ssa.Lookup) Value {
 		found := false
 		if c.M != nil {
 			val, found = in.mapGet(c.M, in.get(fr, x.Index))
+			if c.M.Owner != nil {
+				in.recordAccess(c.M.Owner.C, c.M.Owner.Field, false)
+				if found {
+					in.tagOwner(val, c.M.Owner)
+				}
+			}
 		}
 		if !found {
 			val = in.zero(mt.Elem())
